@@ -372,7 +372,7 @@ def rule_agree_parser(ctx):
     HEXLOW = boolsum.set_of("ascii_hexdigit") & ~sum(1 << c for c in range(65, 71))
     ctx.ob("AGREE-K", "neither ',' nor ':' is in the emitted hex class [0-9a-f]", not (HEXLOW >> ord(",")) & 1 and not (HEXLOW >> ord(":")) & 1, detail="hex class computed from the serialiser's guard and to_ascii_lowercase")
     rows = [r for r in models.rejections(facts, key) if r["kind"] == "err"]
-    dup = [r for r in rows if any((t[0] == "pred" and t[1].endswith("::is_some") and t[3] is True) or (t[0] in ("is", "callres") and t[-1] == "Occupied" and "HashMap" in str(t) and "::entry" in str(t)) for t in r["triggers"])]
+    dup = [r for r in rows if any((t[0] == "pred" and t[1].endswith("::is_some") and t[3] is True) or (t[0] in ("is", "callres") and t[-1] == "Occupied" and "HashMap" in str(t) and "::entry" in str(t)) or (t[0] in ("is", "callres") and t[-1] == "Some" and "HashMap" in str(t) and "::insert" in str(t)) for t in r["triggers"])]
     ctx.ob("AGREE-K", "a repeated (lower-cased) algorithm is refused with InvalidQualifier", len(dup) == 1 and dup[0]["error"] == "ParseError::InvalidQualifier", fn=key, site=dup[0]["site"] if dup else "", detail="")
 
 
